@@ -62,6 +62,12 @@ Theorem C41_real_decode_bounds : forall id b v r,
 Proof. exact real_decode_bounds. Qed.
 Print Assumptions C41_real_decode_bounds.
 
+(* the model threads ONE depth budget through every called type; the generated sources do the same: no
+   nested decoder call re-arms the budget (list read from every generated UnmarshalMsgWithState) *)
+Theorem C41_real_depth_state_threaded : Schemas.unthreaded_calls = [].
+Proof. exact real_depth_state_threaded. Qed.
+Print Assumptions C41_real_depth_state_threaded.
+
 (* The bound is NOT kept by the real code when a struct key occurs twice and the field is a map: the
    generated resizeMap keeps the existing map ("because we are decoding the same key twice") and
    compares only the second header with the allocbound.  [merge_dup] is that branch; two maps within
